@@ -2,6 +2,7 @@
   Mrm/Proofs/TimingP.lean — C16: durations, offsets, start and end times (targets).
 -/
 import Mrm.Spec.Access
+import Mrm.Proofs.ViewsFrom
 
 namespace Mrm
 
@@ -109,93 +110,49 @@ theorem prefixSum_mono (ds : List (Option Nat)) (k k' : Nat) (h : k ≤ k') : pr
         have := ih k k' (by omega)
         omega
 
-theorem storyOffsetsFrom_cons {s : Xml} {ss : List Xml} {t : Nat} {tbl : List (Option String × Nat)}
+theorem storyOffsetsFrom_cons {s : Xml} {ss : List Xml} {t : Nat} {tbl : List Nat}
     (h : storyOffsetsFrom (s :: ss) t = .ok tbl) :
-    ∃ idTag d rest, s.find "storyID" = some idTag ∧ storyDuration s = .ok d ∧
-      storyOffsetsFrom ss (t + d.getD 0) = .ok rest ∧ tbl = (idTag.text, t) :: rest := by
+    ∃ d rest, storyDuration s = .ok d ∧
+      storyOffsetsFrom ss (t + d.getD 0) = .ok rest ∧ tbl = t :: rest := by
   unfold storyOffsetsFrom at h
-  cases hid : s.find "storyID" with
-  | none => rw [hid] at h; cases h
-  | some idTag =>
-    rw [hid] at h
-    simp only at h
-    cases hd : storyDuration s with
-    | error e => rw [hd] at h; cases h
-    | ok d =>
-      rw [hd] at h
-      cases hr : storyOffsetsFrom ss (t + d.getD 0) with
-      | error e => simp only [bind, Except.bind, hr] at h; cases h
-      | ok rest =>
-        simp only [bind, Except.bind, hr, pure, Except.pure] at h
-        cases h
-        exact ⟨idTag, d, rest, rfl, rfl, hr, rfl⟩
+  cases hd : storyDuration s with
+  | error e => simp only [hd, bind, Except.bind] at h; cases h
+  | ok d =>
+    cases hr : storyOffsetsFrom ss (t + d.getD 0) with
+    | error e => simp only [hd, bind, Except.bind, hr] at h; cases h
+    | ok rest =>
+      simp only [hd, bind, Except.bind, hr, pure, Except.pure] at h
+      cases h
+      exact ⟨d, rest, rfl, hr, rfl⟩
 
-/-- the offset table lists the story IDs in order with the prefix sums of the durations -/
-theorem offsets_prefix (ss : List Xml) (t : Nat) (tbl : List (Option String × Nat))
+/-- the offset table is the list of prefix sums of the durations, by position -/
+theorem offsets_prefix (ss : List Xml) (t : Nat) (tbl : List Nat)
     (h : storyOffsetsFrom ss t = .ok tbl) :
-    tbl.map (·.1) = ss.map (fun s => Xml.childText (some s) "storyID") ∧
-    tbl.map (·.2) = (List.range ss.length).map (fun k => t + prefixSum (durationsOf ss) k) := by
+    tbl = (List.range ss.length).map (fun k => t + prefixSum (durationsOf ss) k) := by
   induction ss generalizing t tbl with
   | nil =>
     simp only [storyOffsetsFrom] at h
-    cases h; exact ⟨rfl, rfl⟩
+    cases h; rfl
   | cons s ss ih =>
-    obtain ⟨idTag, d, rest, hid, hd, hrest, rfl⟩ := storyOffsetsFrom_cons h
-    obtain ⟨ih1, ih2⟩ := ih _ _ hrest
-    constructor
-    · simp only [List.map_cons, ih1]
-      congr 1
-      simp [Xml.childText, hid]
-    · have hdur : durationsOf (s :: ss) = d :: durationsOf ss := by
-        simp [durationsOf, hd]
-      simp only [List.map_cons, ih2, List.length_cons, List.range_succ_eq_map, hdur, prefixSum_zero,
-        List.map_map, Nat.add_zero]
-      congr 1
-      apply List.map_congr_left
-      intro k _
-      simp only [Function.comp, prefixSum_cons_succ]
-      omega
+    obtain ⟨d, rest, hd, hrest, rfl⟩ := storyOffsetsFrom_cons h
+    have ih2 := ih _ _ hrest
+    have hdur : durationsOf (s :: ss) = d :: durationsOf ss := by
+      simp [durationsOf, hd]
+    rw [ih2]
+    simp only [List.length_cons, List.range_succ_eq_map, hdur, prefixSum_zero,
+      List.map_cons, List.map_map, Nat.add_zero]
+    congr 1
+    apply List.map_congr_left
+    intro k _
+    simp only [Function.comp, prefixSum_cons_succ]
+    omega
 
-theorem find?_unique_key {l : List (Option String × Nat)} (hn : (l.map (·.1)).Nodup)
-    {x : Option String × Nat} (hx : x ∈ l) : l.find? (fun p => p.1 == x.1) = some x := by
-  induction l with
-  | nil => cases hx
-  | cons a l ih =>
-    simp only [List.map_cons, List.nodup_cons] at hn
-    by_cases ha : a.1 = x.1
-    · have : a = x := by
-        rcases List.mem_cons.mp hx with e | e
-        · exact e.symm
-        · exfalso; apply hn.1; rw [ha]; exact List.mem_map_of_mem e
-      simp [this]
-    · have hx' : x ∈ l := by
-        rcases List.mem_cons.mp hx with e | e
-        · exact absurd (by rw [e]) ha
-        · exact e
-      have hb : (a.1 == x.1) = false := by simpa using ha
-      simp only [List.find?_cons, hb]
-      exact ih hn.2 hx'
-
-/-- with unique story IDs the ID-keyed lookup returns the k-th story's own prefix sum -/
-theorem offset_lookup (ss : List Xml) (tbl : List (Option String × Nat)) (h : storyOffsetsFrom ss 0 = .ok tbl)
-    (hn : (ss.map (fun s => Xml.childText (some s) "storyID")).Nodup) (k : Nat) (hk : k < ss.length) :
-    lookupLast tbl (Xml.childText (some ss[k]) "storyID") = some (prefixSum (durationsOf ss) k) := by
-  obtain ⟨h1, h2⟩ := offsets_prefix ss 0 tbl h
-  have hlen : tbl.length = ss.length := by
-    have := congrArg List.length h1; simpa using this
-  have hk' : k < tbl.length := by omega
-  have e1 : (tbl[k]).1 = Xml.childText (some ss[k]) "storyID" := by
-    have : (tbl.map (·.1))[k]'(by simpa using hk') = Xml.childText (some ss[k]) "storyID" := by
-      simp only [h1, List.getElem_map]
-    simpa using this
-  have e2 : (tbl[k]).2 = prefixSum (durationsOf ss) k := by
-    have : (tbl.map (·.2))[k]'(by simpa using hk') = prefixSum (durationsOf ss) k := by
-      simp only [h2, List.getElem_map, List.getElem_range, Nat.zero_add]
-    simpa using this
-  unfold lookupLast
-  rw [← e1, find?_unique_key (by rw [List.map_reverse, (List.reverse_perm _).nodup_iff, h1]; exact hn)
-    (List.mem_reverse.mpr (List.getElem_mem hk'))]
-  simp [e2]
+/-- the k-th entry of the offset table is the k-th story's own prefix sum (repeated IDs or not) -/
+theorem offset_lookup (ss : List Xml) (tbl : List Nat) (h : storyOffsetsFrom ss 0 = .ok tbl)
+    (k : Nat) (hk : k < ss.length) :
+    tbl[k]? = some (prefixSum (durationsOf ss) k) := by
+  rw [offsets_prefix ss 0 tbl h]
+  simp [hk]
 
 /-- start: explicit StoryStarted, else running-order start + offset (when both exist), else none -/
 theorem story_start_spec (s : Xml) (ps off r : Option Nat) (h : storyStart s ps off = .ok r) :
@@ -241,49 +198,21 @@ theorem story_end_spec (s : Xml) (ps off r : Option Nat) (h : storyEnd s ps off 
           simp only [hst, hdu] at h
           cases st <;> cases du <;> simp only [pure, Except.pure] at h <;> cases h <;> rfl
 
-theorem mapExcept_ok {α β : Type} (f : α → Except PyExc β) :
-    ∀ (l : List α) (vs : List β), mapExcept f l = .ok vs →
-      vs.length = l.length ∧ ∀ k (hk : k < l.length) (hk' : k < vs.length), f l[k] = .ok vs[k] := by
-  intro l
-  induction l with
-  | nil =>
-    intro vs h
-    simp only [mapExcept] at h
-    cases h
-    exact ⟨rfl, fun k hk => absurd hk (Nat.not_lt_zero _)⟩
-  | cons a l ih =>
-    intro vs h
-    unfold mapExcept at h
-    cases hf : f a with
-    | error e => simp only [hf, bind, Except.bind] at h; cases h
-    | ok b =>
-      cases hr : mapExcept f l with
-      | error e => simp only [hf, hr, bind, Except.bind] at h; cases h
-      | ok bs =>
-        simp only [hf, hr, bind, Except.bind, pure, Except.pure] at h
-        cases h
-        obtain ⟨ih1, ih2⟩ := ih bs hr
-        refine ⟨by simp [ih1], ?_⟩
-        intro k hk hk'
-        cases k with
-        | zero => simpa using hf
-        | succ k => simpa using ih2 k (by simpa using hk) (by simpa using hk')
-
-theorem storyView_ok {s : Xml} {st : Option Nat} {offs : Option (List (Option String × Nat))}
+theorem storyView_ok {s : Xml} {st : Option Nat} {offs : Option Nat}
     {v : StoryView} (h : storyView s st offs = .ok v) :
     storyDuration s = .ok v.duration ∧
-    v.offset = offs.bind (fun tbl => lookupLast tbl (Xml.childText (some s) "storyID")) ∧
+    v.offset = offs ∧
     storyStart s st v.offset = .ok v.start ∧ storyEnd s st v.offset = .ok v.stop := by
   unfold storyView at h
   cases hd : storyDuration s with
   | error e => simp only [hd, bind, Except.bind] at h; cases h
   | ok d =>
     simp only [hd, bind, Except.bind] at h
-    cases hs : storyStart s st (offs.bind (fun tbl => lookupLast tbl (Xml.childText (some s) "storyID"))) with
+    cases hs : storyStart s st offs with
     | error e => simp only [hs] at h; cases h
     | ok a =>
       simp only [hs] at h
-      cases he : storyEnd s st (offs.bind (fun tbl => lookupLast tbl (Xml.childText (some s) "storyID"))) with
+      cases he : storyEnd s st offs with
       | error e => simp only [he] at h; cases h
       | ok b =>
         simp only [he, pure, Except.pure] at h
@@ -294,7 +223,7 @@ theorem roStories_ok {rc : Xml} {vs : List StoryView} {st : Option Nat}
     (h : roStories rc = .ok vs) (hst : roStart rc = .ok st) :
     (rc.findall "story" = [] ∧ vs = []) ∨
     ∃ tbl, storyOffsetsFrom (rc.findall "story") 0 = .ok tbl ∧
-      mapExcept (fun s => storyView s st (some tbl)) (rc.findall "story") = .ok vs := by
+      viewsFrom st (rc.findall "story") tbl = .ok vs := by
   unfold roStories at h
   simp only at h
   by_cases he : (rc.findall "story").isEmpty = true
@@ -304,12 +233,10 @@ theorem roStories_ok {rc : Xml} {vs : List StoryView} {st : Option Nat}
     exact ⟨by simpa using he, rfl⟩
   · right
     simp only [he, Bool.false_eq_true, if_false, hst, bind, Except.bind] at h
-    unfold storyOffsets at h
-    simp only [he, Bool.false_eq_true, if_false] at h
     cases ho : storyOffsetsFrom (rc.findall "story") 0 with
-    | error e => simp only [ho, Except.map] at h; cases h
+    | error e => simp only [ho] at h; cases h
     | ok tbl =>
-      simp only [ho, Except.map] at h
+      simp only [ho] at h
       exact ⟨tbl, rfl, h⟩
 
 /-- C16, all relations at once, for every running order whose accessors return: with unique story
@@ -321,8 +248,7 @@ theorem view_consistent (d : Xml) (v : RoView) (h : roView d = .ok v) :
       v.duration = (if v.stories.all (fun s => s.duration.isSome)
                     then some ((v.stories.map (fun s => s.duration.getD 0)).sum) else none) ∧
       v.stories.map (·.duration) = durationsOf (rc.findall "story") ∧
-      (((rc.findall "story").map (fun s => Xml.childText (some s) "storyID")).Nodup →
-        ∀ k (hk : k < v.stories.length), (v.stories[k]).offset = some (prefixSum (durationsOf (rc.findall "story")) k)) ∧
+      (∀ k (hk : k < v.stories.length), (v.stories[k]).offset = some (prefixSum (durationsOf (rc.findall "story")) k)) ∧
       (∀ k (hk : k < v.stories.length) (hk' : k < (rc.findall "story").length),
         storyStart ((rc.findall "story")[k]) v.start (v.stories[k]).offset = .ok (v.stories[k]).start ∧
         storyEnd ((rc.findall "story")[k]) v.start (v.stories[k]).offset = .ok (v.stories[k]).stop) := by
@@ -348,13 +274,14 @@ theorem view_consistent (d : Xml) (v : RoView) (h : roView d = .ok v) :
           refine ⟨?_, rfl, ro_duration vs, ?_⟩
           · rcases roStories_ok hvs hst with ⟨h1, h2⟩ | ⟨tbl, _, hm⟩
             · rw [h1, h2]; rfl
-            · exact (mapExcept_ok _ _ _ hm).1
+            · exact viewsFrom_length hm
           · rcases roStories_ok hvs hst with ⟨h1, h2⟩ | ⟨tbl, htbl, hm⟩
             · rw [h1, h2]
               refine ⟨rfl, ?_, ?_⟩
-              · intro _ k hk; exact absurd hk (Nat.not_lt_zero _)
               · intro k hk; exact absurd hk (Nat.not_lt_zero _)
-            · obtain ⟨hlen, hpt⟩ := mapExcept_ok _ _ _ hm
+              · intro k hk; exact absurd hk (Nat.not_lt_zero _)
+            · have hlen := viewsFrom_length hm
+              have hpt := fun k hk hk' => viewsFrom_getElem hm k hk' hk
               refine ⟨?_, ?_, ?_⟩
               · apply List.ext_getElem
                 · simp [durationsOf, hlen]
@@ -363,12 +290,11 @@ theorem view_consistent (d : Xml) (v : RoView) (h : roView d = .ok v) :
                   have hk' : k < vs.length := by simpa using hk1
                   obtain ⟨hd, _⟩ := storyView_ok (hpt k hk hk')
                   simp [durationsOf, hd]
-              · intro hn k hk
+              · intro k hk
                 have hk' : k < (rc.findall "story").length := by omega
                 obtain ⟨_, ho, _⟩ := storyView_ok (hpt k hk' hk)
                 rw [ho]
-                simp only [Option.bind_some]
-                exact offset_lookup _ tbl htbl hn k hk'
+                exact offset_lookup _ tbl htbl k hk'
               · intro k hk hk'
                 obtain ⟨_, _, hs, he⟩ := storyView_ok (hpt k hk' hk)
                 exact ⟨hs, he⟩
